@@ -151,7 +151,7 @@ Section Sharing.
   Qed.
 
   (** pulls (including the eviction they trigger) never change which publication is the newest one *)
-  Lemma lpull_last g u (s : lstate) k t : last_entry (st_hist (fst (lpull g u s k t))) = last_entry (st_hist s).
+  Lemma lpull_last g tr u (s : lstate) k t : last_entry (st_hist (fst (lpull g tr u s k t))) = last_entry (st_hist s).
   Proof.
     unfold lpull, get_data.
     destruct (interpolate (st_hist s) t) as [e| |]; simpl; try reflexivity.
@@ -774,14 +774,14 @@ Section LinkPull.
   Open Scope Z_scope.
 
   (** a pull over the link = [_convert_and_check] of the nearest publication *)
-  Theorem link_pull_nearest g ui (s : lstate) k t :
+  Theorem link_pull_nearest g tr ui (s : lstate) k t :
     increasing (st_hist s) ->
     match st_hist s with
-    | [] => lpull g ui s k t = (s, RNoData)
+    | [] => lpull g tr ui s k t = (s, RNoData)
     | (t0, _) :: r =>
-        (t < t0 \/ last_time t0 r < t -> lpull g ui s k t = (s, RTime))
+        (t < t0 \/ last_time t0 r < t -> lpull g tr ui s k t = (s, RTime))
         /\ (t0 <= t <= last_time t0 r ->
-            exists tp e, In (tp, e) (st_hist s) /\ snd (lpull g ui s k t) = deliver g ui e
+            exists tp e, In (tp, e) (st_hist s) /\ snd (lpull g tr ui s k t) = deliver g ui (relaid tr e)
               /\ forall x, In x (st_hist s) -> Z.abs (tp - t) <= Z.abs (fst x - t))
     end.
   Proof.
